@@ -32,7 +32,7 @@ REAL_VS_STUB = {
     "real": ["stackscope.extract and every hook dispatcher / built-in glue", "contextlib", "threading", "greenlet (3.12 leg)"],
     "stub": ["generated programs", "synthetic item types", "wrappers that count and raise at the k-th invocation"],
 }
-RARE_PROBES = ["late_faults", "pairs_injected", "fault_is_exception_group", "hostile_special_method_objects", "hook_returns_hostile_sequence", "fault_in_nested_stack", "exception_group_seen", "scn_program", "scn_thread", "scn_greenlet", "scn_items", "scn_object"]
+RARE_PROBES = ["persistent_frame_source_faults", "late_faults", "pairs_injected", "fault_is_exception_group", "hostile_special_method_objects", "hook_returns_hostile_sequence", "fault_in_nested_stack", "exception_group_seen", "scn_program", "scn_thread", "scn_greenlet", "scn_items", "scn_object"]
 LEGS = [
     {"name": "faults312", "python": "3.12", "quick": 1600, "thorough": 40000, "quick_s": 50, "thorough_s": 420, "run_timeout": 60},
     {"name": "faults311", "python": "3.11", "quick": 600, "thorough": 15000, "quick_s": 40, "thorough_s": 300, "run_timeout": 60},
@@ -43,6 +43,11 @@ LEGS = [
 
 class Injected(Exception):
     pass
+
+
+class NonTermination(BaseException):
+    """Raised by the harness (not an Exception: it must get out of extract) when the code
+    under test keeps stepping a frame source that fails on every step."""
 
 
 def make_fault(kind, message):
@@ -82,6 +87,9 @@ class Recorder(object):
         self.calls = []  # hook names in dynamic order
         self.inject_at = set()
         self.fault_kind = {}
+        self.persistent = False
+        self.broken_iters = {}
+        self.broken_steps = 0
         self.after = False
         self.injected = []  # (k, hook, exception, building_root, frame_arg)
         self.installed = False
@@ -132,11 +140,20 @@ class Recorder(object):
         orig_next = _customization.FrameIterator.__next__
 
         def fi_next(self_):
+            if id(self_) in rec.broken_iters:
+                # a frame source that stays broken: every further step fails as well (unlike a
+                # generator, which is finished after raising).  extract must not keep asking.
+                rec.broken_steps += 1
+                if rec.broken_steps > 2000:
+                    raise NonTermination("frame iterator stepped %d times after its first failure" % rec.broken_steps)
+                raise Injected("the frame iterator is still broken (step %d after its failure)" % rec.broken_steps)
             k = len(rec.calls)
             rec.calls.append("frameiter_next")
             if k in rec.inject_at:
                 e = make_fault(rec.fault_kind.get(k, 0), "fault #%d in FrameIterator step" % k)
                 rec.injected.append((k, "frameiter_next", e, rec.building(), None))
+                if rec.persistent:
+                    rec.broken_iters[id(self_)] = self_
                 raise e
             return orig_next(self_)
 
@@ -662,8 +679,19 @@ def inject(ctx, scn, rec, ks, st0, stacks0, base_errors):
     rec.inject_at = set(ks)
     # what is raised: mostly a plain exception, sometimes an exception group
     rec.fault_kind = dict((k, ctx.tape.weighted([8, 1, 1, 1, 1])) for k in ks)
+    # a failing frame source may be a generator (finished once it raised) or an object that
+    # fails on every later step too
+    rec.persistent = ctx.tape.choose(3) == 2
+    rec.broken_iters = {}
+    rec.broken_steps = 0
     try:
         st = do_extract(scn.target())
+    except NonTermination as e:
+        raise Violation(
+            "c05_extract_does_not_terminate",
+            "extract(%s scenario) with fault(s) at invocation(s) %r: %s" % (scn.kind, ks, e),
+            {"scenario": scn.kind, "positions": ks},
+        )
     except Exception as e:
         raise Violation(
             "c05_extract_raised",
@@ -672,6 +700,12 @@ def inject(ctx, scn, rec, ks, st0, stacks0, base_errors):
         )
     finally:
         rec.inject_at = set()
+        if rec.broken_steps:
+            ctx.stat("broken_frame_source_stepped_again", rec.broken_steps)
+        if rec.persistent and rec.broken_iters:
+            ctx.stat("persistent_frame_source_faults")
+        rec.broken_iters = {}
+        rec.persistent = False
     if not isinstance(st, stackscope.Stack):
         raise Violation("c05_not_a_stack", "extract returned %r" % type(st), {})
     stacks = all_stacks(st)
